@@ -47,8 +47,9 @@ def runWrite (v ns impl : String) : Ans :=
 def wsProtos : List String := ["ws", "wss", "wss0"]
 def tunnelProtos : List String := ["ws", "wss", "wss0", "tls", "tlsr", "t10c", "t11c", "t12c", "t12g"]
 
-/-- what bfe_server's response writer adds to the 101 response (the model mirrors the code that exists) -/
-def wsSuffixModel : String := " hs=ok x=content-type+date+transfer-encoding"
+/-- what bfe_server's response writer adds to the 101 response: only `Date` (after fix bb8afff; before it also
+    Content-Type and Transfer-Encoding: chunked) -/
+def wsSuffixModel : String := " hs=ok x=date"
 
 /-- split an implementation result of a websocket case into the stream part and the two handshake fields -/
 def splitWs (impl : String) : Option (String × String × String) :=
